@@ -632,7 +632,9 @@ class Evaluator:
         return ('unknown', rv.get('dbg', k))
 
     def assign(self, st, lhs, val, at, bb):
-        pl = self.place(st, lhs)
+        self.assign_place(st, self.place(st, lhs), val, at, bb)
+
+    def assign_place(self, st, pl, val, at, bb):
         if pl[0] == 'local':
             lk = lkey(pl)
             st.env[lk] = val
@@ -815,6 +817,22 @@ class Evaluator:
                         st.visits = {}
                         st.env[(1, st.depth)] = args[1]
                         b = 0
+                        continue
+                if name == 'std::option::Option::take' and args and t.get('target') is not None:
+                    a0 = args[0]
+                    if a0[0] in ('ref', 'rawptr') and self.rooted_local(a0[1]):
+                        cur_ = self.read_place(st, a0[1], None)
+                        if cur_[0] == 'agg' and cur_[1].endswith('option::Option') and cur_[2] in ('Some', 'None'):
+                            # `local_option.take()` on a known value: the local becomes None, the result is the old value
+                            self.assign_place(st, a0[1], ('agg', cur_[1], 'None', (), ()), t.get('at'), b)
+                            self.assign(st, t['dest'], cur_, t.get('at'), b)
+                            b = t['target']
+                            continue
+                if name in ('std::option::Option::unwrap', 'std::option::Option::expect', 'std::option::Option::unwrap_unchecked') and args:
+                    a0 = args[0]
+                    if a0[0] == 'agg' and a0[1].endswith('option::Option') and a0[2] == 'Some' and a0[3] and t.get('target') is not None:
+                        self.assign(st, t['dest'], a0[3][0], t.get('at'), b)
+                        b = t['target']
                         continue
                 if name in ('std::option::Option::is_some', 'std::option::Option::is_none') and args and t.get('target') is not None:
                     a0 = args[0]
